@@ -10,6 +10,7 @@
 package c06
 
 import (
+	"bufio"
 	"crypto"
 	"crypto/ecdsa"
 	"crypto/elliptic"
@@ -22,15 +23,18 @@ import (
 	"io"
 	"math/big"
 	"net"
+	"net/http"
 	"os"
 	"strings"
 	"sync"
 	"testing"
 	"time"
 
+	"github.com/google/martian/v3"
 	"github.com/google/martian/v3/mitm"
 
 	"verifharness/internal/kit"
+	"verifharness/internal/netkit"
 )
 
 func TestMain(m *testing.M) { kit.Main(m, "C06") }
@@ -56,6 +60,9 @@ type Worker struct {
 	// asked for before this burst (SNI f<j>.s<step>.fresh.test, the same
 	// sequence for every worker), then the own name, then the new name again"
 	Fresh int `json:"fresh,omitempty"`
+	// Gap (tunnels only): stay idle between the proxy's 200 and the ClientHello
+	// for the configured validity plus 300 ms
+	Gap bool `json:"gap,omitempty"`
 }
 
 // Op is one step of a history.
@@ -64,6 +71,11 @@ type Worker struct {
 //	hs     the same through a real tls.Server / tls.Client pair over net.Pipe
 //	expire sleep until every certificate seen so far is past its NotAfter
 //	conc   Workers run simultaneously behind a start barrier
+//	prep   build the tls.Config for Host (TLSForHost / TLS()) now and keep it;
+//	       a later get/hs with Held uses that object instead of a new one - what
+//	       a server does that sets its TLS side up before the client speaks
+//	tunnels Workers each open a CONNECT tunnel through a real martian.Proxy
+//	       that uses the Config for MITM, optionally idle (Gap), then handshake
 //
 // Host indexes Case.Hosts (the CONNECT authority, used when Sni is empty);
 // Host -1 is the empty fallback "", Host -2 the host-less fallback ":443".
@@ -75,6 +87,7 @@ type Op struct {
 	Sni     string   `json:"sni,omitempty"`
 	TLS12   bool     `json:"tls12,omitempty"` // hs: client caps the version at TLS 1.2
 	Std     bool     `json:"std,omitempty"`   // hs: the client itself verifies (RootCAs + ServerName), as a browser would
+	Held    bool     `json:"held,omitempty"`  // get/hs: use the tls.Config kept by an earlier prep of the same API/Host
 	Workers []Worker `json:"workers,omitempty"`
 }
 
@@ -83,11 +96,26 @@ type Case struct {
 	Org   string `json:"org"`
 	CA    string `json:"ca,omitempty"`    // "" = RSA authority from mitm.NewAuthority, "ecdsa" = P-256 authority
 	Short bool   `json:"short,omitempty"` // validity 2 s instead of the default hour
-	Hosts []Host `json:"hosts"`
-	Ops   []Op   `json:"ops"`
+	// ValidityMs, when set, is the validity handed to SetValidity (implies Short)
+	ValidityMs int    `json:"validity_ms,omitempty"`
+	Hosts      []Host `json:"hosts"`
+	Ops        []Op   `json:"ops"`
 }
 
 const shortValidity = 2 * time.Second
+
+// validity is what SetValidity gets; 0 = leave the default hour.
+func (c Case) validity() time.Duration {
+	if c.ValidityMs > 0 {
+		return time.Duration(c.ValidityMs) * time.Millisecond
+	}
+	if c.Short {
+		return shortValidity
+	}
+	return 0
+}
+
+func (c Case) short() bool { return c.validity() > 0 }
 
 // fixed decoys: no generated host ever has one of these identities.
 var fixedDecoys = []string{"c06-decoy.invalid", "192.0.2.77", "2001:db8::77"}
@@ -227,6 +255,10 @@ type exec struct {
 	mu          sync.Mutex
 	maxNotAfter time.Time
 
+	held     map[string]*tls.Config // prep'd configurations, by API/Host
+	lastPrep time.Time
+	proxy    *netkit.Proxy // started by the first tunnels step
+
 	// (certificate object, name) pairs already judged in full; only used for
 	// the results of a burst, which hand the same object back thousands of times
 	judged map[judgedKey]bool
@@ -247,7 +279,14 @@ func (x *exec) fail(sig, format string, args ...interface{}) {
 	x.v.Addf(sig, format, args...)
 }
 
-func (x *exec) serverConfig(api string, host int) *tls.Config {
+func heldKey(api string, host int) string { return fmt.Sprintf("%s/%d", api, host) }
+
+func (x *exec) serverConfig(api string, host int, held bool) *tls.Config {
+	if held {
+		if cfg := x.held[heldKey(api, host)]; cfg != nil {
+			return cfg
+		}
+	}
 	if api == "tls" {
 		return x.cfg.TLS()
 	}
@@ -354,9 +393,15 @@ type result struct {
 	t0, t1 time.Time
 }
 
-func (x *exec) request(where string, api string, host int, sni string) result {
+func (x *exec) request(where string, api string, host int, sni string, held bool) result {
 	r := result{e: expect(x.c.Hosts, api, host, sni), where: where + " " + describeReq(x.c.Hosts, api, host, sni)}
-	scfg := x.serverConfig(api, host)
+	if held && x.held[heldKey(api, host)] != nil {
+		r.where += " (tls.Config built at an earlier step)"
+		if !r.e.refuse {
+			r.e.shape += "-held-config"
+		}
+	}
+	scfg := x.serverConfig(api, host, held)
 	r.t0 = time.Now()
 	r.cert, r.err = scfg.GetCertificate(&tls.ClientHelloInfo{ServerName: sni})
 	r.t1 = time.Now()
@@ -394,8 +439,8 @@ func (x *exec) judge(r result) {
 	}
 }
 
-func (x *exec) get(where string, api string, host int, sni string) {
-	x.judge(x.request(where, api, host, sni))
+func (x *exec) get(where string, api string, host int, sni string, held bool) {
+	x.judge(x.request(where, api, host, sni, held))
 }
 
 // judgeBurst is judge with the full verification done once per (certificate
@@ -494,17 +539,23 @@ func (x *exec) clientConfig(e expectation, sni string, tls12, std bool) *tls.Con
 }
 
 // hs performs one real handshake and applies the oracle.
-func (x *exec) hs(where string, api string, host int, sni string, tls12, std bool) {
+func (x *exec) hs(where string, api string, host int, sni string, tls12, std, held bool) {
 	e := expect(x.c.Hosts, api, host, sni)
 	where = where + " handshake against " + describeReq(x.c.Hosts, api, host, sni)
-	if std && (x.c.Short || e.refuse || (sni == "" && !isIPName(e.name))) {
+	if held && x.held[heldKey(api, host)] != nil {
+		where += " (tls.Config built at an earlier step)"
+		if !e.refuse {
+			e.shape += "-held-config"
+		}
+	}
+	if std && (x.c.short() || e.refuse || (sni == "" && !isIPName(e.name))) {
 		// not expressible with the standard client (it cannot verify a DNS
 		// name without sending it as SNI; with a 2 s validity its own clock
 		// reading would race the window): fall back to the manual oracle
 		std = false
 	}
 	run := func(bound time.Duration) hsOut {
-		return handshakeOnce(x.serverConfig(api, host), x.clientConfig(e, sni, tls12, std), bound)
+		return handshakeOnce(x.serverConfig(api, host, held), x.clientConfig(e, sni, tls12, std), bound)
 	}
 	out := run(kit.T())
 	if out.timeout {
@@ -548,20 +599,32 @@ func (x *exec) step(i int, op Op) {
 	where := fmt.Sprintf("step %d", i)
 	switch op.Kind {
 	case "get":
-		x.get(where, op.API, op.Host, op.Sni)
+		x.get(where, op.API, op.Host, op.Sni, op.Held)
 	case "hs":
-		x.hs(where, op.API, op.Host, op.Sni, op.TLS12, op.Std)
+		x.hs(where, op.API, op.Host, op.Sni, op.TLS12, op.Std, op.Held)
+	case "prep":
+		x.held[heldKey(op.API, op.Host)] = x.serverConfig(op.API, op.Host, false)
+		x.lastPrep = time.Now()
+	case "tunnels":
+		x.tunnels(where, op)
 	case "expire":
 		x.mu.Lock()
 		until := x.maxNotAfter
 		x.mu.Unlock()
-		if !x.c.Short || until.IsZero() {
+		if !x.c.short() {
+			return
+		}
+		// whatever a prep may have issued out of sight expires no later than this
+		if !x.lastPrep.IsZero() && x.lastPrep.Add(x.c.validity()).After(until) {
+			until = x.lastPrep.Add(x.c.validity())
+		}
+		if until.IsZero() {
 			return
 		}
 		// NotAfter has whole-second precision and is inclusive.
 		if d := time.Until(until.Add(30 * time.Millisecond)); d > 0 {
-			if d > 2*shortValidity {
-				d = 2 * shortValidity
+			if d > 2*x.c.validity() {
+				d = 2 * x.c.validity()
 			}
 			time.Sleep(d)
 		}
@@ -581,7 +644,7 @@ func (x *exec) step(i int, op Op) {
 				ww := fmt.Sprintf("%s worker %d (of %d concurrent)", where, w, len(op.Workers))
 				<-start
 				if wk.Hs {
-					x.hs(ww, "", wk.Host, wk.Sni, false, false)
+					x.hs(ww, "", wk.Host, wk.Sni, false, false, false)
 					return
 				}
 				reps := wk.Reps
@@ -589,13 +652,13 @@ func (x *exec) step(i int, op Op) {
 					reps = 1
 				}
 				for r := 0; r < reps; r++ {
-					results[w] = append(results[w], x.request(ww, "", wk.Host, wk.Sni))
+					results[w] = append(results[w], x.request(ww, "", wk.Host, wk.Sni, false))
 				}
 				// never-seen names force issuance while the others keep asking
 				for j := 0; j < wk.Fresh; j++ {
-					results[w] = append(results[w], x.request(ww, "", wk.Host, freshName(i, j)))
-					results[w] = append(results[w], x.request(ww, "", wk.Host, wk.Sni))
-					results[w] = append(results[w], x.request(ww, "", wk.Host, freshName(i, j)))
+					results[w] = append(results[w], x.request(ww, "", wk.Host, freshName(i, j), false))
+					results[w] = append(results[w], x.request(ww, "", wk.Host, wk.Sni, false))
+					results[w] = append(results[w], x.request(ww, "", wk.Host, freshName(i, j), false))
 				}
 			}(w, wk)
 		}
@@ -607,6 +670,118 @@ func (x *exec) step(i int, op Op) {
 			}
 		}
 	}
+}
+
+// tunnels: the path a browser takes. Every worker opens a CONNECT tunnel for
+// its authority through a real proxy that MITMs with the case's Config, waits
+// (Gap) and then starts TLS inside the tunnel.
+func (x *exec) tunnels(where string, op Op) {
+	if x.proxy == nil {
+		p := martian.NewProxy()
+		p.SetTimeout(30 * time.Second)
+		p.SetMITM(x.cfg)
+		x.proxy = netkit.Start(p, nil)
+	}
+	var wg sync.WaitGroup
+	for w, wk := range op.Workers {
+		wg.Add(1)
+		go func(w int, wk Worker) {
+			defer wg.Done()
+			defer func() {
+				if r := recover(); r != nil {
+					x.fail("C06/panic/tunnel-worker", "%s tunnel %d panicked: %v", where, w, r)
+				}
+			}()
+			x.tunnel(fmt.Sprintf("%s tunnel %d (of %d)", where, w, len(op.Workers)), wk)
+		}(w, wk)
+	}
+	wg.Wait()
+}
+
+type tunnelOut struct {
+	stage   string // where it stopped: dial, connect, handshake, done
+	err     error
+	status  int
+	raw     [][]byte
+	t0, t1  time.Time
+	timeout bool
+}
+
+func (x *exec) tunnelOnce(authority, sni string, gap time.Duration, bound time.Duration) (out tunnelOut) {
+	conn, err := net.DialTimeout("tcp", x.proxy.Addr, bound)
+	if err != nil {
+		return tunnelOut{stage: "dial", err: err, timeout: isTimeout(err)}
+	}
+	defer conn.Close()
+	conn.SetDeadline(time.Now().Add(bound))
+	if _, err := fmt.Fprintf(conn, "CONNECT %s HTTP/1.1\r\nHost: %s\r\n\r\n", authority, authority); err != nil {
+		return tunnelOut{stage: "connect", err: err, timeout: isTimeout(err)}
+	}
+	br := bufio.NewReader(conn)
+	res, err := http.ReadResponse(br, &http.Request{Method: "CONNECT"})
+	if err != nil {
+		return tunnelOut{stage: "connect", err: err, timeout: isTimeout(err)}
+	}
+	if res.StatusCode != 200 || br.Buffered() != 0 {
+		return tunnelOut{stage: "connect", status: res.StatusCode, err: fmt.Errorf("CONNECT answered %d with %d stray bytes", res.StatusCode, br.Buffered())}
+	}
+	if gap > 0 {
+		time.Sleep(gap)
+	}
+	out.stage = "handshake"
+	conn.SetDeadline(time.Now().Add(bound))
+	cc := &tls.Config{ServerName: sni, InsecureSkipVerify: true}
+	cc.VerifyPeerCertificate = func(rawCerts [][]byte, _ [][]*x509.Certificate) error {
+		for _, r := range rawCerts {
+			out.raw = append(out.raw, append([]byte(nil), r...))
+		}
+		return nil
+	}
+	out.t0 = time.Now()
+	err = tls.Client(conn, cc).Handshake()
+	out.t1 = time.Now()
+	if err != nil {
+		out.err, out.timeout = err, isTimeout(err)
+		return out
+	}
+	out.stage = "done"
+	return out
+}
+
+func (x *exec) tunnel(where string, wk Worker) {
+	e := expect(x.c.Hosts, "", wk.Host, wk.Sni)
+	if e.refuse {
+		return // no-name requests are not sent through the proxy
+	}
+	authority := fallbackSpelling(x.c.Hosts, wk.Host)
+	var gap time.Duration
+	e.shape += "-tunnel"
+	if wk.Gap && x.c.short() {
+		gap = x.c.validity() + 300*time.Millisecond
+		e.shape += "-idle"
+	}
+	where = fmt.Sprintf("%s CONNECT %s, idle %s, ClientHello with SNI %q", where, authority, gap, wk.Sni)
+	out := x.tunnelOnce(authority, wk.Sni, gap, kit.T())
+	if out.timeout {
+		again := x.tunnelOnce(authority, wk.Sni, gap, 3*kit.T())
+		if again.timeout {
+			x.fail("C06/handshake/"+e.shape+"/timeout", "%s: stage %s did not finish within %s: %v", where, again.stage, 3*kit.T(), again.err)
+			return
+		}
+		kit.Inconclusive(x.check)
+		out = again
+	}
+	if out.stage != "done" {
+		class := "failed"
+		if out.stage != "handshake" {
+			class = "connect-failed"
+		}
+		x.fail("C06/handshake/"+e.shape+"/"+class, "%s: stopped at stage %s: %v", where, out.stage, out.err)
+		if len(out.raw) == 0 {
+			return
+		}
+	}
+	x.checkChain(where, e, out.raw, out.t0, out.t1)
 }
 
 // freshName is shared by the workers of a burst: they all walk the same
@@ -625,10 +800,15 @@ func run(check string, c Case) kit.Verdict {
 		return kit.Failf("C06/setup/new-config-error", "mitm.NewConfig: %v", err)
 	}
 	cfg.SetOrganization(c.Org)
-	if c.Short {
-		cfg.SetValidity(shortValidity)
+	if c.short() {
+		cfg.SetValidity(c.validity())
 	}
-	x := &exec{check: check, c: c, cfg: cfg, ca: auth, seen: map[string]bool{}, judged: map[judgedKey]bool{}}
+	x := &exec{check: check, c: c, cfg: cfg, ca: auth, seen: map[string]bool{}, judged: map[judgedKey]bool{}, held: map[string]*tls.Config{}}
+	defer func() {
+		if x.proxy != nil {
+			x.proxy.Stop(kit.T())
+		}
+	}()
 	have := map[string]bool{}
 	add := func(name, canon string) {
 		if name != "" && !have[canon] {
@@ -658,12 +838,14 @@ func run(check string, c Case) kit.Verdict {
 
 type caseInfo struct {
 	ip, v6bare, v6port, port, mixed, hit, crossing, conc, handshake, tls12, noName, sni, sniDiffers, std, apiTLS bool
+	held, heldCrossing, tunnel, idleTunnel                                                                       bool
 }
 
 func analyse(c Case) caseInfo {
 	var ci caseInfo
 	requested := map[string]bool{}
-	stale := map[string]bool{} // requested before an expire step
+	stale := map[string]bool{}   // requested before an expire step
+	prepped := map[string]bool{} // API/Host with a kept tls.Config -> an expire step has passed since
 	visit := func(api string, host int, sni string, hs bool) {
 		e := expect(c.Hosts, api, host, sni)
 		if hs {
@@ -706,7 +888,7 @@ func analyse(c Case) caseInfo {
 		if requested[e.key] {
 			ci.hit = true
 		}
-		if stale[e.key] && c.Short {
+		if stale[e.key] && c.short() {
 			ci.crossing = true
 			delete(stale, e.key)
 		}
@@ -716,6 +898,12 @@ func analyse(c Case) caseInfo {
 		switch op.Kind {
 		case "get", "hs":
 			visit(op.API, op.Host, op.Sni, op.Kind == "hs")
+			if aged, ok := prepped[heldKey(op.API, op.Host)]; ok && op.Held {
+				ci.held = true
+				if aged && c.short() {
+					ci.heldCrossing = true
+				}
+			}
 			if op.Kind == "hs" && op.TLS12 {
 				ci.tls12 = true
 			}
@@ -725,6 +913,22 @@ func analyse(c Case) caseInfo {
 		case "expire":
 			for k := range requested {
 				stale[k] = true
+			}
+			for k := range prepped {
+				prepped[k] = true
+			}
+		case "prep":
+			prepped[heldKey(op.API, op.Host)] = false
+		case "tunnels":
+			for _, w := range op.Workers {
+				if expect(c.Hosts, "", w.Host, w.Sni).refuse {
+					continue
+				}
+				visit("", w.Host, w.Sni, true)
+				ci.tunnel = true
+				if w.Gap && c.short() {
+					ci.idleTunnel = true
+				}
 			}
 		case "conc":
 			for _, w := range op.Workers {
@@ -743,7 +947,7 @@ func analyse(c Case) caseInfo {
 
 func nonTrivial(c Case) bool {
 	ci := analyse(c)
-	return ci.ip || ci.port || ci.mixed || ci.hit || ci.crossing || ci.conc
+	return ci.ip || ci.port || ci.mixed || ci.hit || ci.crossing || ci.conc || ci.heldCrossing || ci.idleTunnel
 }
 
 func classes(c Case) []string {
@@ -756,7 +960,7 @@ func classes(c Case) []string {
 		{ci.ip, "ip-literal"}, {ci.v6bare, "ipv6-bare"}, {ci.v6port, "ipv6-bracket-port"}, {ci.port, "host-port"},
 		{ci.mixed, "mixed-case"}, {ci.hit, "cache-hit"}, {ci.crossing, "expiry-crossing"}, {ci.conc, "concurrent"},
 		{ci.handshake, "handshake"}, {ci.tls12, "tls12"}, {ci.noName, "no-name"}, {ci.sni, "sni"},
-		{ci.sniDiffers, "sni-differs-from-fallback"}, {ci.std, "std-client"}, {ci.apiTLS, "api-tls"}, {c.Short, "short-validity"}, {c.CA == "ecdsa", "ecdsa-authority"},
+		{ci.sniDiffers, "sni-differs-from-fallback"}, {ci.std, "std-client"}, {ci.apiTLS, "api-tls"}, {c.short(), "short-validity"}, {ci.held, "held-config"}, {ci.heldCrossing, "held-config-across-expiry"}, {ci.tunnel, "proxy-tunnel"}, {ci.idleTunnel, "idle-tunnel-past-validity"}, {c.CA == "ecdsa", "ecdsa-authority"},
 	} {
 		if kv.on {
 			out = append(out, kv.name)
